@@ -1311,6 +1311,7 @@ func syntacticallyNonNil(v ssa.Value) bool {
 type valueSource struct {
 	Val ssa.Value
 	At  *ssa.BasicBlock
+	To  *ssa.BasicBlock // the phi block the value was delivered to from At (nil: the value is used in At itself)
 }
 
 // sourcesAt expands v, used at block `at`, through local cells and phis: for every phi the
@@ -1319,24 +1320,24 @@ type valueSource struct {
 func sourcesAt(v ssa.Value, at *ssa.BasicBlock) []valueSource {
 	var out []valueSource
 	seen := map[ssa.Value]bool{}
-	var walk func(v ssa.Value, at *ssa.BasicBlock, depth int)
-	walk = func(v ssa.Value, at *ssa.BasicBlock, depth int) {
+	var walk func(v ssa.Value, at, to *ssa.BasicBlock, depth int)
+	walk = func(v ssa.Value, at, to *ssa.BasicBlock, depth int) {
 		v = resolveLocal(v)
 		ph, ok := v.(*ssa.Phi)
 		if !ok || depth > 6 || seen[v] {
-			out = append(out, valueSource{v, at})
+			out = append(out, valueSource{v, at, to})
 			return
 		}
 		seen[v] = true
 		inf := infeasibleEdges(ph.Block(), at)
 		for i, e := range ph.Edges {
-			if inf[i] {
-				continue
+			if inf[i] || blockEndsProcess(ph.Block().Preds[i]) {
+				continue // (an edge out of a block that calls os.Exit delivers nothing)
 			}
-			walk(e, ph.Block().Preds[i], depth+1)
+			walk(e, ph.Block().Preds[i], ph.Block(), depth+1)
 		}
 	}
-	walk(v, at, 0)
+	walk(v, at, nil, 0)
 	return out
 }
 
@@ -1373,4 +1374,30 @@ func (l *Loop) everyIteration(blk *ssa.BasicBlock) bool {
 		}
 	}
 	return true
+}
+
+// blockEndsProcess: the block calls os.Exit / log.Fatal (control never leaves it).
+func blockEndsProcess(b *ssa.BasicBlock) bool {
+	for _, in := range b.Instrs {
+		if k, ok := stdEnds(in); ok && k == "exit" {
+			return true
+		}
+	}
+	return false
+}
+
+// factsOnEdge: what holds when control passes from block `from` to its successor `to`: the
+// facts at `from` plus the outcome of the branch at its end.
+func factsOnEdge(from, to *ssa.BasicBlock) []Fact {
+	fs := factsAt(from)
+	if to != nil && len(from.Instrs) > 0 {
+		if ifi, ok := from.Instrs[len(from.Instrs)-1].(*ssa.If); ok && len(from.Succs) == 2 && from.Succs[0] != from.Succs[1] {
+			if from.Succs[0] == to {
+				fs = append(fs, Fact{ifi.Cond, true, ifi})
+			} else if from.Succs[1] == to {
+				fs = append(fs, Fact{ifi.Cond, false, ifi})
+			}
+		}
+	}
+	return expandFacts(fs)
 }
